@@ -209,6 +209,7 @@ func c13Exec(c *Ctx, k c13Case, choices []int) {
 	var results []res
 	var handled []map[string]interface{}
 	var handledRaw [][]byte
+	var handledRawLive [][]byte // the very slices the handler was given, kept without copying
 	var herr error
 	st, pan := protect(func() {
 		switch k.Fn {
@@ -221,6 +222,7 @@ func c13Exec(c *Ctx, k c13Case, choices []int) {
 			}
 			mhr := func(m mxj.Map, raw []byte) bool {
 				handledRaw = append(handledRaw, append([]byte(nil), raw...))
+				handledRawLive = append(handledRawLive, raw)
 				return mh(m)
 			}
 			eh := func(e error) bool { herr = e; return false }
@@ -373,6 +375,12 @@ func c13Exec(c *Ctx, k c13Case, choices []int) {
 		}
 	}
 	for i, raw := range handledRaw {
+		// a handler may keep the raw slice it was handed (as a caller keeps NewMap...ReaderRaw's result):
+		// documents read later must not rewrite it
+		if !bytes.Equal(handledRawLive[i], raw) {
+			viol("raw", fmt.Sprintf("the raw slice handed to the handler for document %d was %q and reads %q after the later documents were processed", i+1, raw, handledRawLive[i]))
+			break
+		}
 		if isJSON {
 			if string(raw) != jsonStripWS(k.Docs[i]) {
 				viol("raw", fmt.Sprintf("handler raw %d = %q, expected %q", i+1, raw, jsonStripWS(k.Docs[i])))
